@@ -77,6 +77,13 @@ func (self *Fork) postProcess(ctx context.Context) error {
 		noutMap := make(MarshalerMap, len(outs))
 		for k, elem := range outs {
 			util.Print("Fork \"%s\":\n", k)
+			if err := syntax.IsLegalUnixFilename(k); err != nil {
+				// There is no directory by that name below outs.  The
+				// outputs of the fork stay where they are.
+				util.PrintError(err, "cannot create out directory %q", k)
+				noutMap[k] = elem
+				continue
+			}
 			nout, err := self.processStructOuts(pipestancePath,
 				path.Join(outsPath, k), elem)
 			if err != nil {
